@@ -80,14 +80,14 @@ def _val(v):
     if z3.is_int_value(v):
         return v.as_long()
     if z3.is_rational_value(v):
-        return [v.numerator_as_long(), v.denominator_as_long()]
+        return v.numerator_as_long() / v.denominator_as_long()
     if z3.is_true(v):
         return True
     if z3.is_false(v):
         return False
     if z3.is_algebraic_value(v):
         a = v.approx(20)
-        return [a.numerator_as_long(), a.denominator_as_long()]
+        return a.numerator_as_long() / a.denominator_as_long()
     return str(v)
 
 
@@ -117,7 +117,7 @@ def _check(job):
                     dims = []
                     for ln in lens:
                         lc = consts.get(ln)
-                        dims.append(_val(m.eval(lc, model_completion=True)) if lc is not None else 0)
+                        dims.append(_val(m.eval(lc, model_completion=True)) if lc is not None else 6)
                     model[name] = {"shape": dims, "data": None}
                     if c is not None and all(isinstance(d, int) and 0 <= d <= 12 for d in dims):
                         def rd(term, k):
